@@ -630,6 +630,23 @@ func runC12(c *Ctx) {
 					return s
 				}})
 			c.check(nW == 1 && !badW && okState, "done-after-bundle", ic.ID+":deferred", p.Pos(dlit.Pos()), "the DiamondDone descriptor is written only when the commit body returned nil (i.e. after the bundle descriptor)", "the deferred step can write the done descriptor although the commit failed (or writes another state): the diamond is closed without a bundle")
+			// a failed done-write is the commit's verdict: its error is stored in the named result
+			okVerdict := false
+			ast.Inspect(dlit.Body, func(n ast.Node) bool {
+				as, ok := n.(*ast.AssignStmt)
+				if !ok || as.Tok != token.ASSIGN || len(as.Lhs) != 1 || len(as.Rhs) != 1 {
+					return true
+				}
+				call, ok := ast.Unparen(as.Rhs[0]).(*ast.CallExpr)
+				if !ok || calleeID(info, call) != "pkg/core.Diamond.uploadDescriptor" {
+					return true
+				}
+				if id, ok := ast.Unparen(as.Lhs[0]).(*ast.Ident); ok && errV != nil && info.Uses[id] == errV {
+					okVerdict = true
+				}
+				return true
+			})
+			c.check(okVerdict, "done-after-bundle", ic.ID+":done-write-is-verdict", p.Pos(dlit.Pos()), "the outcome of the no-overwrite write of the done descriptor is the commit's result", "a failure to write diamond-done (lost race against another commit or a cancel, both refused by NoOverWrite) is no longer returned by Commit: two commits of one diamond both report success, or a canceled diamond reports a successful commit")
 			// the defer is registered after diamondReady and is the only writer of the final state in implCommit
 			var dstmt *ast.DeferStmt
 			for _, d := range icb.defers {
@@ -975,4 +992,6 @@ func runC12(c *Ctx) {
 	checkNoRelabelAsMissing(c, "done-splits-only.no-relabel")
 	checkGenericErrorDiscipline(c, "pkg/core")
 	checkBatchDistributesAllKeys(c, "done-splits-only.batch-distributes-all")
+	checkCollectSplitsAlwaysLists(c, "commit.splits-from-store")
+	checkStateToKeyTable(c, "no-overwrite.state-to-key")
 }
